@@ -256,6 +256,29 @@ func (st *clientState) exec(op Op) (r OpResult) {
 		r.Tags = mgr.ListTags()
 	case "Recompute":
 		r.G, r.GErr = mgr.VerifRecompute()
+	case "FreshViewPrefetchPage":
+		// one result page of the stream list: a search whose hits are shown with
+		// all their tags, pending tags evaluated for the hits only
+		v := mgr.GetView()
+		sig := &ViewSig{}
+		q, err := query.Parse(op.Def)
+		if err != nil {
+			sig.Err = "parse: " + err.Error()
+		} else {
+			_, _, _, err = v.SearchStreams(context.Background(), q, func(sc manager.StreamContext) error {
+				tags, err := sc.AllTags()
+				if err != nil {
+					return err
+				}
+				sig.Streams = append(sig.Streams, StreamLite{ID: sc.Stream().ID(), Tags: tags})
+				return nil
+			}, manager.PrefetchAllTags())
+			if err != nil {
+				sig.Err = "SearchStreams(PrefetchAllTags): " + err.Error()
+			}
+		}
+		r.View = sig
+		v.Release()
 	case "FreshViewPrefetch":
 		v := mgr.GetView()
 		r.View = viewSigPrefetch(&v)
